@@ -45,4 +45,59 @@ P("C09", "other", "term algebra over MIR def-use: own-buffer term per std owner 
   "This is the necessary condition 'the estimate is built from the accessor std documents as the allocation size'; the numeric equality "
   "with the allocator is a runtime quantity and is not decided.",
   TB + " Not decided: allocator rounding, hashbrown control bytes.", "DESIGN.md 3/C09")
+E3TB = (TB + " E3 additionally trusts lmv/absmodels.py (abstract transformers of RawTable/core/std) and premise P-list (following the "
+        "LRU link from the seal visits exactly the table's entries once), which is the undecided part of C07.")
+P("C01", "proof", "abstract interpretation of MIR: relational linear domain + ghost table sums (inductive invariant)",
+  "Inductive proof by abstract interpretation (lmv/absint.py): assuming current_size <= max_size and current_size = sum of recorded "
+  "sizes on entry, every normal exit of every &mut-self public method, every constructor, clone and the drain protocol re-establishes "
+  "current_size <= max_size, for symbolic sizes, limits and table contents (no bound on history length); every subtraction involving "
+  "sizes is shown not to wrap. All obligations must be discharged.", E3TB + " Unwind exits are C16's.", "DESIGN.md 3/C01")
+P("C02", "proof", "abstract interpretation of MIR with ghost sum G(table) + term check of entry_size",
+  "Inductive proof that current_size = sum of the sizes recorded in the table's entries at every normal exit (same run as C01), that "
+  "every entry inserted into a table records heap_size(key)+heap_size(value)+size_of::<Entry>() (obligation at each table insert), that "
+  "a mutated entry is re-recorded with its new size, and that entry_size is that very sum (term check).",
+  E3TB + " Assumes A-clone (clones report the same heap_size).", "DESIGN.md 3/C02")
+P("C03", "other", "abstract interpretation (eviction-necessity obligations) + call-graph/who-may-evict + dominance rules",
+  "Clauses decided: (1) the LRU-side entry is removed unasked only under insert, mutate and set_max_size (E3 events + call graph); "
+  "(2) at every such eviction site the abstract state entails 'does not fit yet' (current_size + incoming size > limit), so an exact "
+  "fit evicts nothing and the evicted run is minimal (sufficiency is C01); (3) the evicted key is read from the seal's LRU link in every "
+  "iteration; (4) in insert the duplicate has left the table before any eviction, in mutate the entry is promoted before any eviction.",
+  E3TB + " Not decided: that the seal's LRU link is the least recently used entry for every history (C05/C07).", "DESIGN.md 3/C03")
+P("C10", "other", "abstract interpretation with partitioning on the returned enum (path-condition equivalences) + effect analysis",
+  "Clauses decided: for insert and try_insert every exit partition's path condition implies the specified condition on "
+  "(entry_size, max_size, current_size) and, the partitions being exhaustive, the classification is exact; error payload integers equal "
+  "entry_size / max_size / max_size - current_size; the key and value in every error are the very arguments; on every Err exit "
+  "current_size, max_size, the table's ghost sum, len and the table identity are unchanged and no list/table writer ran; a successful "
+  "try_insert adds exactly one entry.", E3TB, "DESIGN.md 3/C10")
+P("C11", "other", "abstract interpretation with ghost heap sizes of user values + dominance rules",
+  "Clauses decided: mutate has exactly the exits Ok(None) (state unchanged, closure not reached), Ok(Some) (entry re-recorded with "
+  "heap(key)+heap(value')+size_of and <= max_size; promoted on both branches) and Err(EntryTooLarge) (iff new size > max_size; payload "
+  "sizes differ by the measured change; exactly one entry left; current_size released by the old size); one closure call site, dominated "
+  "by the lookup hit.", E3TB, "DESIGN.md 3/C11")
+P("C12", "other", "graph comparison of the four cursor state machines (mirror/sibling agreement) + exhaustion discipline + E3 post-states",
+  "Partial. Decided: next/next_back of the borrowing and the taking iterator are mirror images of each other and siblings of one "
+  "another (normalised MIR graphs); every yield path tests the exhaustion cursor first and nulls it when the cursors meet; wrappers "
+  "delegate each direction to the same direction and project the right component; Drain leaves an empty usable cache (E3), owning "
+  "iterators exhaust then clear_no_drop. Not decided: all-interleavings correctness of the two-cursor machine.",
+  E3TB, "DESIGN.md 3/C12")
+P("C13", "other", "abstract interpretation with a capacity ghost + effect analysis + guard/term rules",
+  "Clauses decided: capacity operations leave current_size, max_size, size sum and len unchanged (E3); reserve/try_reserve exit with "
+  "capacity >= len + additional; a failing try_reserve keeps the original table and runs no effect; growth on insertion only behind the "
+  "failure edge of the no-grow insert and with the requested capacity max(2*capacity, 1); shrink_to reallocates only when "
+  "capacity > max(len, min) and requests exactly that.", E3TB + " Not decided: hashbrown's bucket rounding (numeric constants of the growth bound).",
+  "DESIGN.md 3/C13")
+P("C14", "other", "abstract interpretation (clone post-state) + provenance analysis + term rules",
+  "Clauses decided: the clone's current_size, max_size, len and size sum equal the source's and the source's are unchanged (E3, premise "
+  "P-list); its table is requested with the source's capacity(); hash builder cloned; entries are Entry::clone of the visited ones in an "
+  "order-preserving traversal; no pointer into the source survives in the clone (copied links overwritten before use); no write through "
+  "a source-derived pointer (C19).", E3TB, "DESIGN.md 3/C14")
+P("C16", "other", "enumeration of user-call sites with unwind-consistency flags + abstract interpretation at each site",
+  "The crash points are the user-call sites (finite, from MIR). Decided at every site: current_size = sum of recorded sizes (E3); no "
+  "table storage detached from the cache, no half-done accounting pair, no half-done list splice (pending flags); the cleanup path "
+  "frees/empties no table that backs linked nodes; no bitwise-copied entry is live; for mutate/retain closures also current_size <= max_size.",
+  E3TB + " Not decided: completeness of the flag set as a description of 'coherent'.", "DESIGN.md 3/C16")
+P("C17", "other", "typestate rule 'no safety debt in Drop' + abstract interpretation of the constructor post-state",
+  "Decided: every iterator type whose methods reach the bitwise copy-out primitive either owns the cache by value (forgetting it forgets "
+  "the cache) or, if it holds &mut, its constructor already leaves the cache empty and detached (E3 post-state: size 0, no entries, "
+  "seal reset) so that Drop owes nothing for soundness; borrowing iterators have no Drop and reach no writer.", E3TB, "DESIGN.md 3/C17")
 NOT_CLAIMED = {}
